@@ -411,8 +411,10 @@ Definition known (i : input) : N := 0.
 
 (* Branch tag: 0 empty / 1 one thread, no collision / 2 one thread, some get had to retry /
    3 several threads, no collision / 4 several threads with a retry / 5 constants probe. *)
+(* the harness appends one never-used candidate to every oracle stream: two draws plus
+   that one means the real generator was asked at least twice *)
 Definition has_retry (o : op) : bool :=
-  match o with OpGet _ _ (_ :: _ :: _) => true | _ => false end.
+  match o with OpGet _ _ (_ :: _ :: _ :: _) => true | _ => false end.
 Definition tag (i : input) : N :=
   match i with
   | IConsts => 5
